@@ -823,6 +823,49 @@ pub fn c17_case(fam: &str, idx: usize, seed: u64) -> Option<Case> {
             let desc = format!("{} size={} scenario={} index={}", k.describe(), size, ["reverse link dark from #c", "forward link dark from #c", "segment c and all its retransmissions lost", "segment c lost once, segment c+1 lost for good", "one byte of segment c corrupted (no CRC)", "every Finished lost"][kind], c);
             Some(Case::from(sc, &k, desc, false))
         }
+        "mixed" => {
+            // a different handler for every condition: the action taken must be the one configured for the
+            // condition that was actually declared, also for the second and third fault of a transaction
+            let mut rng = Rng::derive(seed, 1702, idx as u64);
+            let mut k = Knobs::base();
+            k.seg = 32;
+            k.nak = nak_procs()[rng.usize(4)];
+            let t = C17_TIMERS[rng.usize(C17_TIMERS.len())];
+            k.ti = t.0;
+            k.ta = t.1;
+            k.tn = t.2;
+            k.limit = t.3;
+            let acts = [FaultHandlerAction::Cancel, FaultHandlerAction::Ignore, FaultHandlerAction::Suspend, FaultHandlerAction::Abandon];
+            for c in [Condition::PositiveLimitReached, Condition::NakLimitReached, Condition::InactivityDetected, Condition::FileChecksumFailure] {
+                if rng.chance(4, 5) {
+                    k.handlers.push((c, acts[rng.usize(4)].clone()));
+                }
+            }
+            // the NAK limit is the one fault that can be ignored without the transaction stalling: make it frequent
+            if rng.bool() {
+                k.handlers.retain(|h| h.0 != Condition::NakLimitReached);
+                k.handlers.push((Condition::NakLimitReached, FaultHandlerAction::Ignore));
+            }
+            let size = 128usize;
+            let cont = content(&mut rng, size, 0, 32, 0xC17);
+            let mut sc = two_party(&case, rng.next_u64(), &k, cont);
+            let kind = rng.usize(6);
+            let c = 1 + rng.usize(3);
+            match kind {
+                0 => sc.rules.push(Rule { from: 1, to: 0, m: Matcher::FromIdx(rng.usize(4)), a: Action::Drop }),
+                1 => sc.rules.push(Rule { from: 0, to: 1, m: Matcher::FromIdx(rng.usize(7)), a: Action::Drop }),
+                2 => sc.rules.push(Rule { from: 0, to: 1, m: Matcher::FdOffset(32 * (c as u64 - 1)), a: Action::Drop }),
+                3 => {
+                    sc.rules.push(Rule { from: 0, to: 1, m: Matcher::Nth(c), a: Action::Drop });
+                    sc.rules.push(Rule { from: 0, to: 1, m: Matcher::FdOffset(32 * c as u64), a: Action::Drop });
+                }
+                4 => sc.rules.push(Rule { from: 0, to: 1, m: Matcher::Nth(c), a: Action::Corrupt(12, 0x40) }),
+                _ => sc.rules.push(Rule { from: 1, to: 0, m: Matcher::KindAll(Kind::Finished), a: Action::Drop }),
+            }
+            sc.paced = true;
+            let desc = format!("{} size={} mixed handlers, scenario kind {} index {} [{}]", k.describe(), size, kind, c, rules_desc(&sc.rules));
+            Some(Case::from(sc, &k, desc, false))
+        }
         _ => None,
     }
 }
@@ -997,6 +1040,11 @@ pub fn judge_c17b(info: &Info, log: &RunLog, rep: &mut Report) {
                         rep.violate("handler-not-applied", format!("{} abandoned", hk), &info.case, w("handler Ignore: the transaction was abandoned"));
                     }
                 }
+                FaultHandlerAction::Cancel if faults.iter().any(|g| g.1 <= *tf && g.2.condition != f.condition && matches!(g.2.condition, Condition::PositiveLimitReached | Condition::InactivityDetected) && k.handlers.iter().any(|h| h.0 == g.2.condition && h.1 == FaultHandlerAction::Ignore)) => {
+                    // an earlier, ignored ACK-limit or inactivity fault left that counter at its limit: the cancel
+                    // handshake that starts now is cut short by it at once (abandon). Two faults interacting; not judged.
+                    rep.count("c17_cancel_after_ignored_limit(not judged)");
+                }
                 FaultHandlerAction::Cancel => {
                     let want_pdu = ent == t.src || t.mode == ack() || k.closure;
                     if want_pdu {
@@ -1013,6 +1061,71 @@ pub fn judge_c17b(info: &Info, log: &RunLog, rep: &mut Report) {
                         rep.violate("handler-not-applied", format!("{} abandoned-at-once", hk), &info.case, w("handler Cancel: the transaction was abandoned at the fault instead of cancelled"));
                     }
                 }
+            }
+        }
+    }
+    // ---------------- a limit that was reached must be declared (under its own condition)
+    for ent in [t.src, t.dst] {
+        let k = &info.knobs[ent];
+        let l = k.limit as u64;
+        let role = if ent == t.src { "sender" } else { "receiver" };
+        let my_kind = if ent == t.src { TaskKind::Send } else { TaskKind::Recv };
+        let span = match d.spans(id, my_kind).first().cloned().cloned() {
+            Some(s) => s,
+            None => continue,
+        };
+        let end = span.end_us.unwrap_or(log.end_us);
+        let arrs = d.arrivals(ent, id);
+        let faults = d.faults(ent, id);
+        // the transaction is out of the normal regime once it is suspended, cancelled or has faulted with a
+        // handler other than Ignore
+        let regime_end = {
+            let mut x = end;
+            if let Some(s) = d.inds(ent, id, IndKind::Suspended).first() {
+                x = x.min(s.1);
+            }
+            for (_, tf, f) in &faults {
+                let a = k.handlers.iter().find(|h| h.0 == f.condition).map(|h| h.1.clone()).unwrap_or(FaultHandlerAction::Cancel);
+                if a != FaultHandlerAction::Ignore {
+                    x = x.min(*tf);
+                }
+            }
+            for p in d.prims(ent, 0) {
+                if p.3 && matches!(p.2, PrimKind::Cancel | PrimKind::Suspend) {
+                    x = x.min(p.1);
+                }
+            }
+            // a cancel arriving from the peer
+            for a in &arrs {
+                let c = match &a.3.payload {
+                    PDUPayload::Directive(Operations::EoF(e)) => e.condition != Condition::NoError,
+                    PDUPayload::Directive(Operations::Finished(f)) => f.condition != Condition::NoError,
+                    _ => false,
+                };
+                if c {
+                    x = x.min(a.1);
+                }
+            }
+            x
+        };
+        if ent == t.dst {
+            // receiver inactivity: L x Ti after the last PDU delivered to it
+            let mut last = span.start_us;
+            let mut pts: Vec<u64> = arrs.iter().map(|a| a.1).filter(|x| *x >= span.start_us).collect();
+            pts.push(u64::MAX);
+            for p in pts {
+                let due = last + l * k.ti as u64 * 1_000_000;
+                if p > due + l * TAU + SLACK && regime_end > due + l * TAU + SLACK {
+                    rep.count("c17_expected_faults_judged:receiver:Inactivity");
+                    if !faults.iter().any(|f| f.2.condition == Condition::InactivityDetected && f.1 + SLACK >= due && f.1 <= due + l * TAU + SLACK) {
+                        rep.violate("limit-fault-missing", format!("role={} cond=InactivityDetected cfg={} L={} handlers={}", role, k.shape(), l, k.handlers.len().min(1)), &info.case, w(&format!("nothing was delivered to the {} for {} x {} s after {:.3}s, yet no InactivityDetected fault was declared at {:.3}s", role, l, k.ti, last as f64 / 1e6, due as f64 / 1e6)));
+                    }
+                    break;
+                }
+                if p == u64::MAX {
+                    break;
+                }
+                last = p;
             }
         }
     }
@@ -1036,13 +1149,16 @@ pub fn run_c17b(rep_out: &mut Report, tier: &str, seed: u64, replay: Option<&str
     rep_out.merge(rep);
     rep_out.add("cases:sys", m as u64);
     rep_out.add("cases:sys-space", n as u64);
+    let nm = if tier == "thorough" { 30_000 } else { 1_500 };
+    rep_out.merge(run_cases(nm, "c17b-mixed", move |i| c17_case("mixed", i, seed), judge_c17b));
+    rep_out.add("cases:mixed", nm as u64);
 }
 
 pub fn meta_c17b() -> Meta {
     Meta {
         property: "C17",
         level: "exploration",
-        rule: "protocol level: 4-segment file, timer grid (Ti,Ta,Tn,L) in {(10,3,4,3),(4,1,2,2),(20,5,2,5),(6,2,9,1),(3,1,5,3)} x handler for every timer/checksum condition in {unset, Cancel, Ignore, Suspend, Abandon} x 4 NAK procedures x scenarios {reverse link dark from each of its first 4 PDUs, forward link dark from each of its first 7 PDUs, each data segment lost together with all its retransmissions, one segment recovering while its neighbour never does (progress resets the count), a corrupted byte without CRC, every Finished lost} plus unacknowledged+closure variants (complete in thorough, every 3rd by seed in quick). Oracle on virtual timestamps. distinct_nontrivial = distinct (config, event-order) signatures among runs in which at least one limit fault was timed.".into(),
+        rule: "protocol level: 4-segment file, timer grid (Ti,Ta,Tn,L) in {(10,3,4,3),(4,1,2,2),(20,5,2,5),(6,2,9,1),(3,1,5,3)} x handler for every timer/checksum condition in {unset, Cancel, Ignore, Suspend, Abandon} x 4 NAK procedures x scenarios {reverse link dark from each of its first 4 PDUs, forward link dark from each of its first 7 PDUs, each data segment lost together with all its retransmissions, one segment recovering while its neighbour never does (progress resets the count), a corrupted byte without CRC, every Finished lost} plus unacknowledged+closure variants (complete in thorough, every 3rd by seed in quick); mixed = seeded scenarios of the same kinds with a different handler per condition (NAK limit often ignored, so that a second, different fault follows in the same transaction). Oracle on virtual timestamps; a receiver inactivity limit that was reached must also have been declared under its own condition. distinct_nontrivial = distinct (config, event-order) signatures among runs in which at least one limit fault was timed.".into(),
         exhaustive: false,
         assumptions: vec!["never-earlier is checked with 10 ms slack for the 1 ms/PDU pacing of the simulated link; never-later with an additional 50 ms per period".into(), "with an Ignore handler the implementation re-declares the same fault immediately (and spins until the hook's spin guard stops the task); only the first declaration of each condition is judged".into()],
         require: vec![("c17_timing_judged:sender:EOF".into(), 30), ("c17_timing_judged:receiver:Finished".into(), 30), ("c17_timing_judged:receiver:NAK".into(), 30), ("c17_timing_judged:receiver:Inactivity".into(), 30), ("c17_handler_judged:Abandon".into(), 20), ("c17_handler_judged:Suspend".into(), 20), ("c17_handler_judged:Ignore".into(), 20), ("c17_handler_judged:Cancel".into(), 40)],
